@@ -428,6 +428,57 @@ def run_pair(bindir, beh, *, root, cap, k, types_a, types_b, ctxs, shards, sh_a,
     return out, problems
 
 
+def campaign2(chk, tag, plans, ctxs, bindir, judge, rnd, types_a=("a", "b"), types_b=("p", "q")):
+    """Two ACTIVE shards: generate (Storage2Gen) + select + replay on two shards of a 3-shard engine + judge each shard's view
+    with `judge(chk, projected_behaviour, recs, problems, cfgdesc, stats, types=...)`."""
+    ta, tb = list(types_a), list(types_b)
+    routes = probe_routing(bindir, 3)
+    two = sorted((sh for sh in routes if len(routes[sh]) >= 2), key=lambda sh: -len(routes[sh]))[:2]
+    if len(two) < 2:
+        raise core.ToolError(f"routing probe: fewer than two shards with two contexts each: {routes}")
+    sh_a, sh_b = sorted(two, reverse=True)
+    names_a = dict(zip(ctxs, routes[sh_a][:2]))
+    names_b = dict(zip(ctxs, routes[sh_b][:2]))
+    stats = Counter()
+    tot_feat, cov_feat = set(), set()
+    for pl in plans:
+        cfgp = gen_cfg2(pl["name"], cap=pl["cap"], k=pl["k"], types_a=ta, types_b=tb, ctxs=ctxs, gen_len=pl["gen_len"])
+        behs, _r = behaviours2(cfgp, n=pl["n_sim"], gen_len=pl["gen_len"], seed=core.seed() + 31 * pl["cap"])
+        rnd.shuffle(behs)
+        # keep behaviours in which both shards store
+        behs = [b for b in behs if {c["sh"] for c in b if c["cmd"] == "store"} >= {"A", "B"}]
+        feats = [features2(b) for b in behs]
+        chosen, covered = [], set()
+        rest = list(range(len(behs)))
+        while rest and len(chosen) < pl["n_rep"]:
+            best = max(rest, key=lambda i: len(feats[i] - covered))
+            chosen.append(best)
+            covered |= feats[best]
+            rest.remove(best)
+        tot_feat |= set().union(*feats) if feats else set()
+        cov_feat |= covered
+        core.log(f"[{tag}] stage P {pl['name']}: {len(behs)} two-shard behaviours, {len(chosen)} replayed on shards {sh_a},{sh_b} of 3")
+        for bi in chosen:
+            beh = behs[bi]
+            res, problems = run_pair(bindir, beh, root=core.WORK / tag.lower() / f"{pl['name']}-{bi}", cap=pl["cap"], k=pl["k"],
+                                     types_a=ta, types_b=tb, ctxs=ctxs, shards=3, sh_a=sh_a, sh_b=sh_b,
+                                     names_a=names_a, names_b=names_b)
+            stats["behaviours"] += 1
+            stats["lifetimes"] += 1 + sum(1 for c in beh if c["cmd"] in ("crash", "restart") or c.get("crash", "none") != "none")
+            if any(c.get("crash", "none") != "none" for c in beh):
+                stats["with_pipeline_crash"] += 1
+            joint = [{x: c[x] for x in c if x not in ("obsA", "obsB")} for c in beh]
+            for which, types in (("A", ta), ("B", tb)):
+                pb, recs = res[which]
+                judge(chk, pb, recs, problems, {"cap": pl["cap"], "k": pl["k"], "plan": pl["name"], "two_shards": True,
+                                                "view": which, "joint": joint}, stats, types=types)
+            if stats["behaviours"] <= 1:
+                chk.sample({"config": pl["name"] + " (two active shards)", "commands": joint})
+    chk.cov["two_shard_stage"] = {**dict(stats), "feature_classes_covered": len(cov_feat), "feature_classes_in_sim": len(tot_feat),
+                                  "shards": [sh_a, sh_b], "spec": "Storage2Gen.tla"}
+    return stats
+
+
 def bag(rows):
     return Counter(r[0] for r in rows) if rows is not None else None
 
